@@ -114,7 +114,7 @@ def element_unit():
     I(Fn("scalar_mul", ensures=f"proj_eq(mrepr(r), smul(limbs_val({S_}) as nat, {P_}))", props=("C05", "C12"), preamble=BUM))
     # operators in element.rs
     items.append(Item(EL, "impl Add for Element", [Fn("add", ensures="mrepr(r) == te_add_min(mrepr(self), mrepr(other))", props=("C04", "C12"),
-                                                      preamble=BUM, attrs=R12)],
+                                                      preamble=BUM + " broadcast use lemma_fmul_comm_b, lemma_fadd_comm_b;", attrs=R12)],
                       keep_assoc=("Output",), pre=_specimpl("", "Add", "Element", "Element", "Element")))
     items.append(Item(EL, "impl Neg for Element", [Fn("neg", ensures="mrepr(r) == te_neg(mrepr(self))", props=("C04", "C12"), preamble=BUM, attrs=R12)],
                       keep_assoc=("Output",), pre=_specimpl("", "Neg", None, "Element", "Element")))
@@ -126,7 +126,7 @@ def element_unit():
     items += ops_items()
     u = Unit(name="min_element",
              preludes=base_preludes() + [("subtle.rs", None), ("curve_spec.rs", None), ("min_spec.rs", None), ("ladder_lemmas.rs", None)],
-             items=items, lemmas=lem + MIN_LEMMAS_PRE + MIN_PRELUDE, params=fq,
+             items=items, lemmas=lem + MIN_LEMMAS_PRE + MIN_PRELUDE + COMM_LEMMAS, params=fq,
              global_subst=[("R2b", r'\bcfg!\(debug_assertions\)', 'false')])
     u.raw = [("src/error.rs", "enum", "EncodingError"), ("src/min_curve/encoding.rs", "struct", "Encoding"), (EL, "struct", "Element")]
     u.ufcs = True
@@ -134,6 +134,13 @@ def element_unit():
     return u
 
 
+COMM_LEMMAS = r"""
+// commutativity of the field operations (each produces at most the mirrored term: no matching loop), so that an
+// operand swap in the source does not push the formula proofs into the resource limit
+pub broadcast proof fn lemma_fmul_comm_b(a: int, b: int) ensures #[trigger] fmul(a, b) == fmul(b, a)
+{ assert(a * b == b * a) by(nonlinear_arith); }
+pub broadcast proof fn lemma_fadd_comm_b(a: int, b: int) ensures #[trigger] fadd(a, b) == fadd(b, a) { }
+"""
 MIN_LEMMAS_PRE = CURVE_LEMMAS.replace("""pub open spec fn decode_result(b: Seq<u8>) -> Result<Element, EncodingError> {
     match decode_bytes_spec(b) { Some(p) => Ok(Element { inner: of_p4(p) }), None => Err(EncodingError::InvalidEncoding) }
 }""", "")
